@@ -65,6 +65,10 @@ def padd(a, b, sign=1):
     return Poly(m)
 
 
+IND = set()          # ids of indicator atoms (0/1 valued: idempotent under multiplication)
+_NEXT_ATOM = [0]
+
+
 def mono_mul(x, y):
     d = dict(x)
     for a, p in y:
@@ -72,6 +76,8 @@ def mono_mul(x, y):
         if np_ == 0:
             d.pop(a, None)
         else:
+            if a in IND and np_ > 1:
+                np_ = 1
             d[a] = np_
     return tuple(sorted(d.items()))
 
@@ -111,20 +117,76 @@ class Atom(object):
 
 class Algebra(object):
     def __init__(self):
-        self.atoms = []
+        self.atoms = {}
         self.by_key = {}
         self._sc = {}
         self._pw = {}
         self.notes = []
+        self._pids = {}
+        self._pid_poly = []
+        self.nonneg_oracle = None      # fn(term) -> bool; None: assumed (recorded)
+        self.assumed_nonneg = set()
+        self.gate_simplified = 0
+
+    def pid(self, p):
+        """Small integer naming a polynomial (keeps atom keys flat)."""
+        k = p.key()
+        i = self._pids.get(k)
+        if i is None:
+            i = len(self._pid_poly)
+            self._pids[k] = i
+            self._pid_poly.append(p)
+        return i
+
+    def poly_of_pid(self, i):
+        return self._pid_poly[i]
 
     # ------------------------------------------------------------------ atoms
     def atom(self, key, perstep, kind, parts=(), term=None, desc=None):
         a = self.by_key.get(key)
         if a is None:
-            a = Atom(len(self.atoms), key, perstep, kind, parts, term, desc)
-            self.atoms.append(a)
+            _NEXT_ATOM[0] += 1
+            a = Atom(_NEXT_ATOM[0], key, perstep, kind, parts, term, desc)
+            self.atoms[a.id] = a
             self.by_key[key] = a
+            if kind == "ind":
+                IND.add(a.id)
         return Poly({((a.id, 1),): Fraction(1)})
+
+    # ------------------------------------------------------------------ indicators
+    def ind(self, c, env=None, lift=False):
+        """0/1 indicator polynomial of a step-independent condition (boolean ring:
+        and = product, not = 1 - x, or by De Morgan; indicator atoms are idempotent)."""
+        op = c.op
+        if c is tm.TRUE:
+            return const(1)
+        if c is tm.FALSE:
+            return const(0)
+        if op == "and":
+            r = const(1)
+            for x in c.a:
+                r = pmul(r, self.ind(x, env, lift))
+            return r
+        if op == "or":
+            if len(c.a) > 3:
+                ck = self.cond_key(c, env, lift)
+                return self.atom(("ind", ck), False, "ind", (c, ck), c)
+            r = const(1)
+            for x in c.a:
+                r = pmul(r, padd(const(1), self.ind(x, env, lift), -1))
+            return padd(const(1), r, -1)
+        if op == "not":
+            return padd(const(1), self.ind(c.a[0], env, lift), -1)
+        if op == "ite" and len(c.a) == 3:
+            ic = self.ind(c.a[0], env, lift)
+            ia = self.ind(c.a[1], env, lift)
+            ib = self.ind(c.a[2], env, lift)
+            return padd(ib, pmul(ic, padd(ia, ib, -1)))
+        cv = self.const_cond(c, env, lift)
+        if cv is not None:
+            return const(1 if cv else 0)
+        ck = self.cond_key(c, env, lift)
+        return self.atom(("ind", ck), False, "ind", (c, ck), c)
 
     def atom_of(self, poly):
         """The Atom when poly is exactly one atom with coefficient 1."""
@@ -145,14 +207,14 @@ class Algebra(object):
             (mono, c), = p.m.items()
             return Poly({tuple(sorted((a, -pw_) for a, pw_ in mono)): 1 / c})
         # non-monomial denominator: an atom standing for the whole sum, with power -1
-        a = self.atom(("poly", p.key()), self.perstep_poly(p), "poly", (p,))
+        a = self.atom(("poly", self.pid(p)), self.perstep_poly(p), "poly", (p,))
         (mono, _c), = a.m.items()
         return Poly({((mono[0][0], -1),): Fraction(1)})
 
     def as_poly_atom(self, p):
         """If the sum p already has a 'poly' atom (because something is divided by it),
         return that atom so that p * (1/p) cancels."""
-        a = self.by_key.get(("poly", p.key()))
+        a = self.by_key.get(("poly", self.pid(p)))
         if a is not None:
             return Poly({((a.id, 1),): Fraction(1)})
         return None
@@ -169,9 +231,9 @@ class Algebra(object):
                 if isinstance(a, Poly) and isinstance(b, Poly):
                     d = padd(a, b, -1)
                     if op == "eq":
-                        k1, k2 = d.key(), pscale(d, -1).key()
+                        k1, k2 = self.pid(d), self.pid(pscale(d, -1))
                         return ("eq0", min(k1, k2))
-                    return (op + "0", d.key())
+                    return (op + "0", self.pid(d))
             except NotScalar:
                 pass
         if op in ("and", "or"):
@@ -194,14 +256,19 @@ class Algebra(object):
 
     # ------------------------------------------------------------------ scalars
     def scalar(self, t):
-        r = self._sc.get(t.id)
-        if r is None:
-            r = self.sx(t, None)
-            self._sc[t.id] = r
-        return r
+        return self.sx(t, None)
 
     def sx(self, t, env):
         """Scalar expression (possibly under lambda environment env)."""
+        if not env:
+            r = self._sc.get(t.id)
+            if r is None:
+                r = self._sx(t, None)
+                self._sc[t.id] = r
+            return r
+        return self._sx(t, env)
+
+    def _sx(self, t, env):
         op = t.op
         if op == "num":
             return const(Fraction(t.a[0]).limit_denominator(10 ** 9)
@@ -237,11 +304,11 @@ class Algebra(object):
             b = self.sx(t.a[1], env)
             if a == b:
                 return a
-            ks = tuple(sorted([a.key(), b.key()]))
+            ks = tuple(sorted([self.pid(a), self.pid(b)]))
             return self.atom((op, ks), self.perstep_poly(a) or self.perstep_poly(b), op, (a, b))
         if op == "abs":
             a = self.sx(t.a[0], env)
-            return self.atom(("abs", a.key()), self.perstep_poly(a), "abs", (a,))
+            return self.atom(("abs", self.pid(a)), self.perstep_poly(a), "abs", (a,))
         if op == "sum":
             return self.sum_of(t.a[0], env)
         if op == "cast":
@@ -270,23 +337,62 @@ class Algebra(object):
             return self.atom(("bterm", t.id, ek), True, "term", (), t)
         return self.atom(("t", t.id), False, "term", (), t)
 
+    def const_cond(self, c, env, lift):
+        """Decide a comparison whose two sides differ by a constant."""
+        if c.op in ("lt", "le", "eq") and len(c.a) == 2:
+            f = self.pwx if lift else self.sx
+            try:
+                d = padd(f(c.a[0], env), f(c.a[1], env), -1)
+            except NotScalar:
+                return None
+            v = d.const_value()
+            if v is not None:
+                return {"lt": v < 0, "le": v <= 0, "eq": v == 0}[c.op]
+        if c.op == "not":
+            r = self.const_cond(c.a[0], env, lift)
+            return None if r is None else (not r)
+        return None
+
     def ite(self, t, env, lift):
         c, a, b = t.a
         f = self.pwx if lift else self.sx
+        cv = self.const_cond(c, env, lift)
+        if cv is True:
+            return f(a, env)
+        if cv is False:
+            return f(b, env)
         pa = f(a, env)
         pb = f(b, env)
         if pa == pb:
             return pa
-        r = self.gate_simplify(c, pa, pb, env, lift)
+        r = self.gate_simplify(c, pa, pb, env, lift, a, b)
         if r is not None:
             return r
+        if not env and not self.cond_perstep(c, env, lift):
+            # step-independent condition: b + [c]*(a - b)
+            return padd(pb, pmul(self.ind(c, env, lift), padd(pa, pb, -1)))
         ck = self.cond_key(c, env, lift)
         per = self.perstep_poly(pa) or self.perstep_poly(pb) or self.cond_perstep(c, env, lift)
-        return self.atom(("ite", ck, pa.key(), pb.key()), per, "ite", (c, pa, pb, ck))
+        # ite(c, common + a, common + b) = common + ite(c, a, b)
+        common = {}
+        for mono, cf in pa.m.items():
+            if pb.m.get(mono) == cf:
+                common[mono] = cf
+        if common:
+            cp = Poly(common)
+            ra, rb = padd(pa, cp, -1), padd(pb, cp, -1)
+            return padd(cp, self.ite_atom(c, ck, ra, rb, per))
+        return self.ite_atom(c, ck, pa, pb, per)
 
-    def gate_simplify(self, c, pa, pb, env, lift):
-        """ite(x == 0, A, B) = B when A and B agree once the atoms of x are set to zero
-        (x a sum of non-negative quantities with positive coefficients; A1)."""
+    def ite_atom(self, c, ck, pa, pb, per):
+        if pa == pb:
+            return pa
+        return self.atom(("ite", ck, self.pid(pa), self.pid(pb)), per, "ite", (c, pa, pb, ck))
+
+    def gate_simplify(self, c, pa, pb, env, lift, ta=None, tb=None):
+        """ite(S == 0, A, B) = B when A and B agree once every addend of S is set to zero.
+        S must be a sum of non-negative quantities (A1; checked by `nonneg_oracle` when set):
+        then S == 0 forces each addend to 0."""
         zero_side = None
         x = None
         if c.op == "eq":
@@ -301,24 +407,27 @@ class Algebra(object):
                 x, zero_side = r, "else"
             elif r is tm.ZERO:
                 x, zero_side = l, "else"
-        if x is None:
+        if x is None or ta is None or tb is None or env:
             return None
+        parts = term_addends(x)
+        if parts is None:
+            return None
+        for p in parts:
+            if self.nonneg_oracle is not None:
+                if not self.nonneg_oracle(p):
+                    return None
+            else:
+                self.assumed_nonneg.add(p.id)
+        m = dict((p, tm.ZERO) for p in parts)
         f = self.pwx if lift else self.sx
         try:
-            px = f(x, env)
+            za = f(tm.subst(ta, m), env)
+            zb = f(tm.subst(tb, m), env)
         except NotScalar:
             return None
-        if px.is_zero() or any(v <= 0 for v in px.m.values()):
+        if za != zb:
             return None
-        ats = set()
-        for mono in px.m:
-            if len(mono) != 1 or mono[0][1] != 1:
-                return None
-            ats.add(mono[0][0])
-        za = self.zero_atoms(pa, ats)
-        zb = self.zero_atoms(pb, ats)
-        if za is None or zb is None or za != zb:
-            return None
+        self.gate_simplified += 1
         return pb if zero_side == "then" else pa
 
     def zero_atoms(self, p, ats):
@@ -326,7 +435,7 @@ class Algebra(object):
         for mono, c in p.m.items():
             hit = False
             for a, pw_ in mono:
-                if a in ats or self.depends_only_zero(a, ats):
+                if a in ats:
                     if pw_ < 0:
                         return None
                     hit = True
@@ -334,19 +443,21 @@ class Algebra(object):
                 m[mono] = c
         return Poly(m)
 
-    def depends_only_zero(self, a, ats):
-        return False
-
     # ------------------------------------------------------------------ vectors (point-wise)
     def pw(self, v):
-        r = self._pw.get(v.id)
-        if r is None:
-            r = self.pwx(v, None)
-            self._pw[v.id] = r
-        return r
+        return self.pwx(v, None)
 
     def pwx(self, v, env):
         """Point-wise value of a vector term at a generic step (scalars pass through)."""
+        if not env:
+            r = self._pw.get(v.id)
+            if r is None:
+                r = self._pwx(v, None)
+                self._pw[v.id] = r
+            return r
+        return self._pwx(v, env)
+
+    def _pwx(self, v, env):
         op = v.op
         if op == "vop":
             o, a, b = v.a
@@ -362,7 +473,7 @@ class Algebra(object):
             if o in ("min", "max"):
                 if pa == pb:
                     return pa
-                ks = tuple(sorted([pa.key(), pb.key()]))
+                ks = tuple(sorted([self.pid(pa), self.pid(pb)]))
                 return self.atom((o, ks), True, o, (pa, pb))
         if op == "vneg":
             return pscale(self.pwx(v.a[0], env), -1)
@@ -440,8 +551,8 @@ class Algebra(object):
                 sa, sb = self.sumt(pa), self.sumt(pb)
                 if sa == sb:
                     return sa
-                return self.atom(("ite", ck, sa.key(), sb.key()), False, "ite", (c, sa, sb, ck))
-        return self.atom(("sumt", p.key()), False, "sumt", (p,))
+                return self.atom(("ite", ck, self.pid(sa), self.pid(sb)), False, "ite", (c, sa, sb, ck))
+        return self.atom(("sumt", self.pid(p)), False, "sumt", (p,))
 
     # ------------------------------------------------------------------ printing
     def show(self, p, depth=3):
@@ -476,6 +587,8 @@ class Algebra(object):
             return "(%s)" % self.show(a.parts[0], depth - 1)
         if k == "abs":
             return "|%s|" % self.show(a.parts[0], depth - 1)
+        if k == "ind":
+            return "[%s]" % tm.show(a.parts[0], 2)
         return "a%d" % a.id
 
     # ------------------------------------------------------------------ queries
@@ -501,13 +614,25 @@ class Algebra(object):
                 acc |= set(tm.free_syms(part))
 
 
+def term_addends(x):
+    """Addends of a term-level sum with positive signs only, else None."""
+    if x.op == "add":
+        a, b = term_addends(x.a[0]), term_addends(x.a[1])
+        if a is None or b is None:
+            return None
+        return a + b
+    if x.op in ("sub", "neg"):
+        return None
+    return [x]
+
+
 class NotScalar(Exception):
     pass
 
 
 def _ek(v):
     if isinstance(v, Poly):
-        return v.key()
+        return hash(v.key())
     if isinstance(v, tuple):
         return tuple(_ek(x) for x in v)
     return ("?",)
